@@ -157,6 +157,59 @@ func runReportWriter(a []string) (result string) {
 	return fmt.Sprintf("ok writer rows=%d", len(rows))
 }
 
+// WRITERS <k>: k reports (one strategy instance, and k different ones) are rendered at the same time, as the very first
+// reports this process writes — whatever the writer initialises lazily is initialised under contention (race build).
+func runWriters(a []string) (result string) {
+	defer func() {
+		if r := recover(); r != nil {
+			result = fmt.Sprintf("panic %v", r)
+		}
+	}()
+	k, _ := strconv.Atoi(a[0])
+	if k < 2 {
+		k = 2
+	}
+	names := []string{"Macd", "Rsi", "Bop", "Trix", "Vwma", "Kdj"}
+	shared, _ := reportStrategy("Macd", defaultNs["Macd"], nil)
+	var wg sync.WaitGroup
+	lens := make([]int, 2*k)
+	for i := 0; i < 2*k; i++ {
+		wg.Add(1)
+		go func(i int) {
+			defer wg.Done()
+			s := shared
+			if i >= k {
+				nm := names[i%len(names)]
+				s, _ = reportStrategy(nm, defaultNs[nm], defaultFs[nm])
+			}
+			env := make([][]float64, 5)
+			for j := range env {
+				for t := 0; t < 30+i; t++ {
+					env[j] = append(env[j], 100+float64((t*7+j*3+i)%11))
+				}
+			}
+			var buf bytes.Buffer
+			if err := s.Report(helper.SliceToChan(makeSnapshots(env))).WriteToWriter(&buf); err == nil {
+				lens[i] = strings.Count(buf.String(), "data.addRow([")
+			}
+		}(i)
+	}
+	done := make(chan struct{})
+	go func() { wg.Wait(); close(done) }()
+	select {
+	case <-done:
+	case <-time.After(caseTimeout):
+		return "timeout"
+	}
+	for i, n := range lens {
+		if n == 0 {
+			return fmt.Sprintf("ok diff writer %d rendered no rows", i)
+		}
+	}
+	return fmt.Sprintf("ok writers=%d", 2*k)
+}
+
 func init() {
+	extraHandlers["WRITERS"] = runWriters
 	extraHandlers["REPORTW"] = runReportWriter
 }
